@@ -131,7 +131,16 @@ def num2(eng, st, args):
     return a, b
 
 
+def _is_nan(x):
+    return (isinstance(x, Opaque) and x.tag == "NaN") or (isinstance(x, float) and x != x)
+
+
 def fmin(eng, a, b):
+    # IEEE minNum / maxNum: a NaN operand is ignored
+    if _is_nan(a):
+        return b
+    if _is_nan(b):
+        return a
     if is_conc(a) and is_conc(b):
         return a if a <= b else b
     a, b = to_z3(a), to_z3(b)
@@ -139,6 +148,10 @@ def fmin(eng, a, b):
 
 
 def fmax(eng, a, b):
+    if _is_nan(a):
+        return b
+    if _is_nan(b):
+        return a
     if is_conc(a) and is_conc(b):
         return a if a >= b else b
     a, b = to_z3(a), to_z3(b)
@@ -692,6 +705,9 @@ def option_result(eng, st, T, meth, args, callee=""):
             return _o(st, 0)
         if inner == "bool":
             return _o(st, False)
+        nm = eng.mir.resolve(f"<{inner} as Default>::default") or eng.mir.resolve(f"<{inner} as std::default::Default>::default")
+        if nm is not None:
+            return eng.exec_body(st, eng.mir.bodies[nm], [])
         raise Unsupported("unwrap_or_default None of " + inner)
     if meth in ("unwrap_or_else",):
         if v.variant == some:
